@@ -235,9 +235,20 @@ class ShapeDomain(Domain):
         return None
 
     # ------------------------------------------------------------ transfers
-    def _cfgkey(self, call):
+    def _cfgkey(self, call, fr=None):
         if call is not None and len(call.args) >= 2 and all(isinstance(a, ast.Constant) for a in call.args[:2]):
             return f"{call.args[0].value}.{call.args[1].value}"
+        if call is not None and len(call.args) >= 2 and fr is not None:
+            # section / option named by a class or module constant
+            from .paths import NOCONST, const_value
+
+            vals = []
+            for a in call.args[:2]:
+                v = a.value if isinstance(a, ast.Constant) else const_value(self.prog, a, getattr(fr, "func", None), getattr(fr, "concrete", None))
+                if v is NOCONST or not isinstance(v, str):
+                    return "?"
+                vals.append(v)
+            return f"{vals[0]}.{vals[1]}"
         return "?"
 
     def call_ext(self, name, call, recv, args, kws, eng, fr):
@@ -250,7 +261,7 @@ class ShapeDomain(Domain):
             return OBJ("instance:" + name[6:])
         # configuration
         if short in ("get", "getint", "getboolean", "getfloat") and recv is not None and recv == OBJ("config"):
-            return V(("cfg", self._cfgkey(call))) if short == "get" else V(("int",))
+            return V(("cfg", self._cfgkey(call, fr))) if short == "get" else V(("int",))
         if short == "has_option":
             return OBJ("bool")
         if name in ("builtins.eval", "ast.literal_eval") and args:
